@@ -12,6 +12,7 @@
     sink block is added when a call was retargeted
 How: R1 by may-flow from each slot binding (also in helpers that hand the slot back) to an assignment through it; the
 first-match analysis by specialisation per set of dangling slots.
+ R1+ (added after seed C09c) the per-function block search starts from ALL blocks listed in the Sub
 """
 from .lib import slots as SL
 from .lib import sym as S
